@@ -1212,6 +1212,8 @@ def generate_dense():
 # ---------------------------------------------------------------------------------------------------------------------
 # dense-time online monitor: online/intersection.py and the operation classes -> Rtamt/Py/GeneratedDenseOn.lean
 # (sub-language and semantics: Rtamt/Py/DnOn.lean)
+SEMANTICS_ORDER = ["STANDARD", "OUTPUT_ROBUSTNESS", "INPUT_VACUITY", "INPUT_ROBUSTNESS", "OUTPUT_VACUITY"]
+DENSE_ON_IA = "rtamt/semantics/iastl/dense_time/online/predicate_operation.py"
 DENSE_ON_INTER = "rtamt/semantics/stl/dense_time/online/intersection.py"
 DENSE_ON_DIRS = ["rtamt/semantics/stl/dense_time/online", "rtamt/semantics/arithmetic/dense_time/online"]
 DENSE_ON_CTOR = "rtamt/semantics/stl/dense_time/online/ast_visitor.py"
@@ -1317,12 +1319,20 @@ class DnOnTr(DnTr):
                 return "(.loc %s)" % q("self." + e.attr)
         if isinstance(e, ast.Call) and isinstance(e.func, ast.Attribute) and e.func.attr == "copy" and not e.args and not e.keywords:
             return "(.call1 \"list\" %s)" % self.expr(e.func.value)
+        if isinstance(e, ast.Attribute) and isinstance(e.value, ast.Name) and e.value.id == "Semantics" and e.attr in SEMANTICS_ORDER:
+            return "(.int %d)" % SEMANTICS_ORDER.index(e.attr)          # a member of the enumeration: its position
         return DnTr.expr(self, e)
 
     def stmt(self, st):
         t = src(st)
         if isinstance(st, ast.Break):
             return ".brk"
+        if isinstance(st, ast.For) and not st.orelse and isinstance(st.target, ast.Name) and isinstance(st.iter, ast.Call) \
+                and src(st.iter.func) == "range" and len(st.iter.args) == 1 and isinstance(st.iter.args[0], ast.Call) \
+                and src(st.iter.args[0].func) == "len" and len(st.iter.args[0].args) == 1:
+            # for i in range(len(L)): the indices of L
+            return "(.forEnum %s %s %s false %s)" % (q(st.target.id), q("$elem_" + st.target.id), self.expr(st.iter.args[0].args[0]),
+                                                     self.block(st.body))
         if isinstance(st, ast.Assign) and len(st.targets) > 1 and all(isinstance(x, ast.Name) for x in st.targets) \
                 and isinstance(st.value, ast.Constant):
             return self.seq(["(.setLoc %s %s)" % (q(x.id), self.expr(st.value)) for x in st.targets])
@@ -1407,6 +1417,57 @@ def generate_dense_on():
                 ident, q("%s.%s" % (cname, mname)), ", ".join(q(x) for x in params), body))
             lines.append("")
             entries.append(("%s.%s" % (cname, mname), ident))
+    # the interface-aware subclass of PredicateOperation: calls `Parent.m(self, ...)` are replaced by the parent's body
+    try:
+        ia = [n for n in ast.parse(open(os.path.join(REPO, DENSE_ON_IA)).read()).body if isinstance(n, ast.ClassDef)][0]
+        parent = classes["PredicateOperation"]
+        pm = {m.name: m for m in parent.body if isinstance(m, ast.FunctionDef)}
+        import copy
+        for m in ia.body:
+            if not (isinstance(m, ast.FunctionDef) and m.name in ("__init__", "update")):
+                continue
+            body, okb = [], True
+            for k, st in enumerate(m.body):
+                call = st.value if isinstance(st, (ast.Assign, ast.Expr)) and isinstance(st.value, ast.Call) else None
+                if call is not None and isinstance(call.func, ast.Attribute) and src(call.func.value) == "StlPredicateOperation" \
+                        and call.func.attr in pm and call.args and src(call.args[0]) == "self" and not call.keywords:
+                    pf = pm[call.func.attr]
+                    pparams = [a.arg for a in pf.args.args][1:]
+                    args = call.args[1:]
+                    if len(args) != len(pparams) or not all(isinstance(a, ast.Name) for a in args):
+                        okb = False
+                        break
+                    pref = "%s%d$" % (call.func.attr.strip("_"), k)
+                    ren = dict(zip(pparams, [a.id for a in args]))
+                    for x in ast.walk(pf):
+                        if isinstance(x, ast.Name) and isinstance(x.ctx, ast.Store) and x.id not in ren:
+                            ren[x.id] = pref + x.id
+                    pbody = [_Subst(ren).visit(copy.deepcopy(b)) for b in pf.body]
+                    ret = None
+                    if pbody and isinstance(pbody[-1], ast.Return):
+                        ret = pbody.pop().value
+                    if any(isinstance(x, ast.Return) for b in pbody for x in ast.walk(b)):
+                        okb = False
+                        break
+                    body += pbody
+                    if isinstance(st, ast.Assign) and ret is not None:
+                        body.append(ast.Assign(targets=st.targets, value=ret, lineno=st.lineno))
+                else:
+                    body.append(st)
+            ident = "IAPredicateOperation_%s" % m.name.strip("_")
+            if okb:
+                fake = copy.copy(m)
+                fake.body = [ast.fix_missing_locations(b) for b in body]
+                tr = DnOnTr(fake, funcs, set(classes), method=True)
+                btxt = tr.block(fake.body)
+            else:
+                btxt = "(.unsupported %s)" % q("parent call in IAPredicateOperation." + m.name)
+            lines.append("def %s : Fn :=\n  { name := %s, params := [%s], body := %s, isMethod := true }" % (
+                ident, q("IAPredicateOperation.%s" % m.name), ", ".join(q(x.arg) for x in m.args.args), btxt))
+            lines.append("")
+            entries.append(("IAPredicateOperation.%s" % m.name, ident))
+    except (OSError, KeyError, IndexError) as e:
+        lines.append("-- interface-aware predicate operation not found: %s" % e)
     lines.append("/-- the functions of the online intersection.py and the methods `Cls.__init__` / `Cls.update` / `Cls.sat` of the operation classes -/")
     lines.append("def fns : List (String × Fn) := [%s]" % ", ".join("(%s, %s)" % (q(n), i) for n, i in entries))
     lines.append("")
